@@ -424,4 +424,37 @@ example : ∀ t op, op ∈ gmorQueues 3 t → ∃ v, op = .loadOrStoreFn 1 v := 
 example : reported 3 (fun i => (5 : Nat).testBit i) (schedule closeCfg 3 (fun i => (5 : Nat).testBit i) 200 7 init) = 2 ∧
     (schedule closeCfg 3 (fun i => (5 : Nat).testBit i) 200 7 init).mainPc = 3 := by decide
 
+/-! ### sixth round: the closing phase under the built-in logger
+
+`closeb`: the goroutines of Close report their failing closers through ONE logger object (`syslog.Pref("Application")` is
+cached per prefix). The built-in logger (syslog/logger.go:118-142) builds each line in locals of the call and hands it to a
+`log.Logger` (serialised by its own mutex), so the report is a step of the goroutine that touches nothing shared:
+`C20_close_drf` (no worker is ever inside an access to shared data) and `C20_close_reports_before_return` cover it. What that
+privacy buys: -/
+
+/-- The skeleton of Close with ONE memory location that every failing closer's goroutine reads and writes while it reports
+    (a scratch buffer kept in the shared logger), outside any lock: for every n ≥ 2 and every failing subset that contains
+    closers 0 and 1 there is a schedule in which both are inside their access at the same time — a data race. -/
+def sharedScratchCloseCfg : FanCfg := ({ expectedCloseShape with workerWritesShared := true } : CloseShape).cfg
+
+theorem C20_close_shared_scratch_race_counterexample (n : Nat) (hn : 2 ≤ n) (errs : Nat → Bool)
+    (h0 : errs 0 = true) (h1 : errs 1 = true) :
+    ∃ s, Reach sharedScratchCloseCfg n errs s ∧ inErrs s 0 ∧ inErrs s 1 := by
+  let s0 : St := { init with mainPc := 1, wg := init.wg + (if sharedScratchCloseCfg.addFirst then (n : Int) else 0) }
+  have hs0 : Steps sharedScratchCloseCfg n errs init s0 := Steps.tail _ _ _ (Steps.refl init) (Step.add init rfl)
+  obtain ⟨s1, hs1, _, _, hw1, _, _, _⟩ := main_spawns sharedScratchCloseCfg rfl n errs 2 s0 rfl (by simp [s0, init]; omega)
+  have hr0 : s1.wpc 0 = .ready := by rw [hw1 0, if_pos (by simp [s0, init])]
+  have hr1 : s1.wpc 1 = .ready := by rw [hw1 1, if_pos (by simp [s0, init])]
+  obtain ⟨s2, hs2, ha0, o2⟩ := worker_to_inAcc_unguarded sharedScratchCloseCfg rfl rfl n errs s1 0 h0 hr0
+  have hr1' : s2.wpc 1 = .ready := by rw [o2.wpc 1 (by decide)]; exact hr1
+  obtain ⟨s3, hs3, ha1, o3⟩ := worker_to_inAcc_unguarded sharedScratchCloseCfg rfl rfl n errs s2 1 h1 hr1'
+  refine ⟨s3, Steps.trans hs0 (Steps.trans hs1 (Steps.trans hs2 hs3)), ?_, ha1⟩
+  show s3.wpc 0 = .inAcc
+  rw [o3.wpc 0 (by decide)]; exact ha0
+
+-- the run the driver makes for `closeb 3 7 … 4`: three closers failing together; at the return of Close all three reports
+-- are complete
+example : reported 3 (fun i => (7 : Nat).testBit i) (schedule closeCfg 3 (fun i => (7 : Nat).testBit i) 200 4 init) = 3 ∧
+    (schedule closeCfg 3 (fun i => (7 : Nat).testBit i) 200 4 init).mainPc = 3 := by decide
+
 end Ioc.C20
